@@ -520,6 +520,100 @@ func genNoProps(r *hx.Rng) Desc {
 // size limits of generated meshes (smaller in the quick tier: evaluation cost is dominated by parsing numerals)
 var maxVerts, maxTris = 12, 10
 
+// reader groups by the attribute they produce: user-named attributes whose property names are members of these
+// groups are claimed by the reader only when the whole group is present (with one type); a lone member stays a scalar
+type family struct {
+	dim    int
+	attr   string
+	groups [][]string
+}
+
+var families = []family{
+	{3, "Position", [][]string{{"x", "y", "z"}, {"px", "py", "pz"}, {"posx", "posy", "posz"}}},
+	{3, "Normal", [][]string{{"nx", "ny", "nz"}, {"normalx", "normaly", "normalz"}}},
+	{3, "Color", [][]string{{"red", "green", "blue", "alpha"}, {"r", "g", "b", "a"}, {"diffuse_red", "diffuse_green", "diffuse_blue", "diffuse_alpha"}}},
+	{2, "TexCoord", [][]string{{"s", "t"}}},
+	{3, "FDC", [][]string{{"f_dc_0", "f_dc_1", "f_dc_2"}}},
+	{1, "Opacity", [][]string{{"opacity"}}},
+	{3, "Scale", [][]string{{"scale_0", "scale_1", "scale_2"}}},
+	{4, "Rotation", [][]string{{"rot_0", "rot_1", "rot_2", "rot_3"}}},
+}
+
+// genReservedUsers adds user-named attributes whose PLY property names are component names of the reader's
+// groups: lone members ("t", "alpha", "px", "scale_0" ...), complete groups spelled as user scalars ("s"+"t",
+// "r"+"g"+"b" ...), vector attributes whose suffixed names are such members ("rot" x 4 = rot_0..rot_3, "scale" x 2),
+// and names differing only in case ("X", "Alpha").  A family is only used when the mesh does not carry its native
+// attribute (no duplicate property names, no two groups for one attribute).
+func genReservedUsers(r *hx.Rng, d *Desc, used map[string]bool, prop map[string]bool) bool {
+	added := false
+	add := func(dim int, name string) {
+		var pn []string
+		if dim == 1 {
+			pn = []string{name}
+		} else {
+			for j := 0; j < dim; j++ {
+				pn = append(pn, fmt.Sprintf("%s_%d", name, j))
+			}
+		}
+		key := fmt.Sprintf("%d/%s", dim, name)
+		if used[key] {
+			return
+		}
+		for _, p := range pn {
+			if prop[p] {
+				return
+			}
+		}
+		for _, p := range pn {
+			prop[p] = true
+		}
+		used[key] = true
+		d.Attrs = append(d.Attrs, Attr{dim, name, genRows(r, d.N, dim, false, false)})
+		added = true
+	}
+	free := []family{}
+	for _, f := range families {
+		native := hasAttr(*d, f.dim, f.attr) || (f.attr == "Color" && hasAttr(*d, 4, "Color")) || (f.attr == "TexCoord" && hasAttr(*d, 2, "TexCoord"))
+		if !native {
+			free = append(free, f)
+		}
+	}
+	for k := r.Range(1, 2); k > 0 && len(free) > 0; k-- {
+		fi := r.Intn(len(free))
+		f := free[fi]
+		free = append(free[:fi:fi], free[fi+1:]...)
+		g := hx.Pick(r, f.groups)
+		switch r.Intn(4) {
+		case 0: // one lone member
+			add(1, hx.Pick(r, g))
+		case 1: // all members but one, or the complete group, as scalars
+			skip := r.Intn(len(g) + 1)
+			for j, n := range g {
+				if j != skip {
+					add(1, n)
+				}
+			}
+		case 2: // a vector attribute whose suffixed names are members (complete or short by one component)
+			if strings.HasSuffix(g[0], "_0") {
+				dim := len(g)
+				if r.Bool() && dim > 2 {
+					dim--
+				}
+				add(dim, strings.TrimSuffix(g[0], "_0"))
+			} else {
+				add(1, g[len(g)-1])
+			}
+		default: // differs only in case: never a member
+			n := hx.Pick(r, g)
+			add(1, strings.ToUpper(n[:1])+n[1:])
+			if r.Bool() {
+				add(1, strings.ToUpper(n))
+			}
+		}
+	}
+	return added
+}
+
 func genDesc(r *hx.Rng) Desc {
 	if r.Chance(3, 100) {
 		return genNoProps(r)
@@ -623,9 +717,17 @@ func genDesc(r *hx.Rng) Desc {
 		used[key] = true
 		d.Attrs = append(d.Attrs, Attr{dim, name, genRows(r, d.N, dim, false, false)})
 	}
+	reservedUser := false
+	if r.Chance(1, 5) {
+		reservedUser = genReservedUsers(r, &d, used, prop)
+	}
 	onlyTex := len(d.Attrs) == 1 && d.Attrs[0].Name == "TexCoord" && d.Attrs[0].Dim == 2 && d.Topo == "triangle"
 	if len(d.Attrs) == 0 || onlyTex {
 		d.Attrs = append(d.Attrs, Attr{3, "Position", genRows(r, d.N, 3, false, false)})
+	}
+	if reservedUser { // written by the unspecified loop of ply.Write (custom tables may use other spellings of the groups)
+		d.Kind, d.Unspec = "default", true
+		return d
 	}
 	// writer configuration
 	switch k := r.Intn(100); {
@@ -898,6 +1000,12 @@ func corner() []Desc {
 	out = append(out, Desc{Topo: "triangle", N: 6, Idx: []int{0, 2, 1, 3, 5, 4}, Kind: "default",
 		Attrs: []Attr{{3, "Position", [][]float64{{0, 0, 0}, {1, 0, 0}, {1, 1, 0}, {0, 1, 0}, {2, 2, 2}, {3, 3, 3}}},
 			{2, "TexCoord", [][]float64{{0, 0}, {1, 0}, {1, 1}, {0, 0.25}, {0.5, 0.5}, {0.75, 0.125}}}}})
+	// user scalars named like lone members of the reader's groups ("t" without "s", "alpha" without the colours,
+	// "px", "scale_0") next to a complete group spelled as user scalars (r g b) and a vector attribute "rot" x 3
+	out = append(out, Desc{Topo: "point", N: 2, Idx: []int{0, 1}, Kind: "default",
+		Attrs: []Attr{{3, "Position", [][]float64{{1, 2, 3}, {4, 5, 6}}}, {1, "t", [][]float64{{0.5}, {-1}}}, {1, "alpha", [][]float64{{0.25}, {2}}},
+			{1, "px", [][]float64{{7}, {8}}}, {1, "scale_0", [][]float64{{9}, {10}}}, {1, "r", [][]float64{{0.125}, {1}}}, {1, "g", [][]float64{{0.5}, {0}}},
+			{1, "b", [][]float64{{0.75}, {0.25}}}, {3, "rot", [][]float64{{1, 0, 0}, {0, 1, 0}}}, {1, "X", [][]float64{{11}, {12}}}}})
 	// custom tables: texture coordinates claimed per vertex (s, t) on a textured quad; int / double storage at the
 	// limits of the types
 	out = append(out,
